@@ -1,8 +1,10 @@
 package vh
 
 import (
+	"bytes"
 	"crypto/x509"
 	"errors"
+	"fmt"
 	"sync"
 	"time"
 
@@ -58,6 +60,57 @@ type RecAgent struct {
 	// Default is used when Next was consumed (streams with many requests).
 	Default Script
 	sticky  bool
+	// kept are the key objects handed to add-type calls, as a served agent that stores them would
+	// keep them (the shim agent does), with their encoding at the time of the call.
+	kept []keptKey
+}
+
+type keptKey struct {
+	op   string
+	n    int
+	key  ssh.PublicKey
+	snap []byte
+}
+
+func (r *RecAgent) keep(op string, k ssh.PublicKey) {
+	if k == nil {
+		return
+	}
+	r.mu.Lock()
+	r.kept = append(r.kept, keptKey{op, len(r.kept), k, blobOf(k)})
+	r.mu.Unlock()
+}
+
+// Corrupted reports the first key object, stored by an earlier add-type call, whose encoding is no
+// longer what it was when the call was made (it aliases memory that was reused since).
+func (r *RecAgent) Corrupted() error {
+	r.mu.Lock()
+	defer r.mu.Unlock()
+	for _, k := range r.kept {
+		var now []byte
+		if perr := Catch(func() { now = k.key.Marshal() }); perr != nil {
+			return fmt.Errorf("the key object the served agent received in %s call #%d can no longer be encoded: %v", k.op, k.n, perr)
+		}
+		if !bytes.Equal(now, k.snap) {
+			return fmt.Errorf("the key object the served agent received in %s call #%d changed after the call returned: %d of %d bytes differ (it shares memory with later requests)", k.op, k.n, diffBytes(now, k.snap), len(k.snap))
+		}
+	}
+	return nil
+}
+
+func diffBytes(a, b []byte) int {
+	n := 0
+	for i := 0; i < len(a) && i < len(b); i++ {
+		if a[i] != b[i] {
+			n++
+		}
+	}
+	if len(a) > len(b) {
+		n += len(a) - len(b)
+	} else {
+		n += len(b) - len(a)
+	}
+	return n
 }
 
 // NewRecAgent returns an agent answering every call with def.
@@ -115,6 +168,9 @@ func (r *RecAgent) SignWithFlags(key ssh.PublicKey, data []byte, flags agent.Sig
 }
 
 func (r *RecAgent) Add(key agent.AddedKey) error {
+	if key.Certificate != nil {
+		r.keep("add", key.Certificate)
+	}
 	k := key
 	return r.rec(Call{Op: "add", Added: &k, Comment: key.Comment}).err()
 }
@@ -155,6 +211,7 @@ func (r *RecAgent) Forward(req []byte) ([]byte, error) {
 }
 
 func (r *RecAgent) AddHardCert(key ssh.PublicKey, comment string) error {
+	r.keep("addhard", key)
 	return r.rec(Call{Op: "addhard", KeyBlob: blobOf(key), Comment: comment}).err()
 }
 
